@@ -12,6 +12,7 @@ import (
 	"regexp"
 	"sort"
 	"strings"
+	"sync"
 	"time"
 )
 
@@ -38,6 +39,8 @@ type CheckSpec struct {
 
 type TierConfig struct {
 	Config
+	Solver    string         `json:"Solver"`
+	TimeoutMS int            `json:"TimeoutMS"`
 	MaxPaths  int            `json:"MaxPaths"`
 	TimeLimit int            `json:"TimeLimitS"`
 	Skip      bool           `json:"Skip"`
@@ -173,6 +176,13 @@ func RunCheck(verifDir, repoDir, prop, tier string, seed int64, only string, ver
 	nHarness := 0
 	diffChecked := 0
 
+	type job struct {
+		hs   HarnessSpec
+		cfg  Config
+		opts ExploreOpts
+		rep  *Report
+	}
+	var jobs []*job
 	for _, hs := range spec.Harnesses {
 		if only != "" && !strings.Contains(hs.Func, only) {
 			continue
@@ -195,11 +205,43 @@ func RunCheck(verifDir, repoDir, prop, tier string, seed int64, only string, ver
 		if tc.Skip {
 			continue
 		}
-		nHarness++
-		cfg := tc.Config
-		h := Harness{Pkg: hs.Pkg, Func: hs.Func}
-		opts := ExploreOpts{Workers: workers, MaxPaths: tc.MaxPaths, TimeLimit: time.Duration(tc.TimeLimit) * time.Second, Solver: "z3", KeepScripts: 3}
-		rep := Explore(ld, h, &cfg, opts)
+		opts := ExploreOpts{Workers: workers, MaxPaths: tc.MaxPaths, TimeLimit: time.Duration(tc.TimeLimit) * time.Second, Solver: tc.Solver, TimeoutMS: tc.TimeoutMS, KeepScripts: 3}
+		if opts.Solver == "" {
+			opts.Solver = "z3"
+		}
+		jobs = append(jobs, &job{hs: hs, cfg: tc.Config, opts: opts})
+	}
+	nHarness = len(jobs)
+	{
+		par := 6
+		if len(jobs) < par {
+			par = len(jobs)
+		}
+		if par > 1 {
+			for _, j := range jobs {
+				j.opts.Workers = (workers + par - 1) / par
+				if j.opts.Workers < 3 {
+					j.opts.Workers = 3
+				}
+			}
+		}
+		sem := make(chan struct{}, par)
+		var wgj sync.WaitGroup
+		for _, j := range jobs {
+			wgj.Add(1)
+			sem <- struct{}{}
+			go func(j *job) {
+				defer wgj.Done()
+				defer func() { <-sem }()
+				j.rep = Explore(ld, Harness{Pkg: j.hs.Pkg, Func: j.hs.Func}, &j.cfg, j.opts)
+			}(j)
+		}
+		wgj.Wait()
+	}
+	for _, j := range jobs {
+		hs := j.hs
+		cfg := j.cfg
+		rep := j.rep
 		r := hres{Harness: hs.Func, Paths: rep.Paths, PathsByEnd: rep.PathsByEnd, Decisions: rep.Decisions, Instrs: rep.Instrs,
 			Assertions: rep.Assertions, Queries: rep.Solver.Queries, Sat: rep.Solver.Sat, Unsat: rep.Solver.Unsat, Unknown: rep.Solver.Unknown,
 			SolverS: rep.Solver.Time.Seconds(), WallS: rep.Wall.Seconds(), Note: hs.Note,
